@@ -77,7 +77,10 @@ func (f FuncV) nilGuard() *Term {
 }
 type TupleV []Value
 type ChanV struct{ obj int }
-type ChanData struct{ closed *Term }
+type ChanData struct {
+	closed *Term
+	ticker bool // a time.Ticker channel: may be ready at any select
+}
 type MutexData struct {
 	writer  bool
 	readers int
@@ -281,21 +284,39 @@ func iteVal(c *Term, a, b Value) Value {
 		}
 	case MapData:
 		y := b.(MapData)
-		// common prefix (same slot keys) merged slot-wise; divergent suffixes are kept side by side
-		k := 0
-		for k < len(x.entries) && k < len(y.entries) && valEq(x.entries[k].key, y.entries[k].key).IsTrue() {
-			k++
-		}
+		// slots with an identical key are merged slot-wise; the others are kept side by side, present
+		// only under their own side's guard (keys stay pairwise distinct among present slots)
 		r := MapData{}
-		for i := 0; i < k; i++ {
-			ex, ey := x.entries[i], y.entries[i]
-			r.entries = append(r.entries, MapEntry{key: ex.key, present: Ite(c, ex.present, ey.present), val: iteVal(c, ex.val, ey.val)})
+		usedY := make([]bool, len(y.entries))
+		for _, ex := range x.entries {
+			j := -1
+			for k, ey := range y.entries {
+				if !usedY[k] && valEq(ex.key, ey.key).IsTrue() {
+					j = k
+					break
+				}
+			}
+			if j >= 0 {
+				ey := y.entries[j]
+				usedY[j] = true
+				var v Value
+				switch {
+				case ex.present.IsFalse():
+					v = ey.val
+				case ey.present.IsFalse():
+					v = ex.val
+				default:
+					v = iteVal(c, ex.val, ey.val)
+				}
+				r.entries = append(r.entries, MapEntry{key: ex.key, present: Ite(c, ex.present, ey.present), val: v})
+			} else {
+				r.entries = append(r.entries, MapEntry{key: ex.key, present: And(c, ex.present), val: ex.val})
+			}
 		}
-		for _, e := range x.entries[k:] {
-			r.entries = append(r.entries, MapEntry{key: e.key, present: And(c, e.present), val: e.val})
-		}
-		for _, e := range y.entries[k:] {
-			r.entries = append(r.entries, MapEntry{key: e.key, present: And(Not(c), e.present), val: e.val})
+		for k, ey := range y.entries {
+			if !usedY[k] {
+				r.entries = append(r.entries, MapEntry{key: ey.key, present: And(Not(c), ey.present), val: ey.val})
+			}
 		}
 		return r
 	case IterData:
@@ -304,7 +325,7 @@ func iteVal(c *Term, a, b Value) Value {
 			return IterData{m: x.m, n: x.n, pos: Ite(c, x.pos, y.pos)}
 		}
 	case ChanData:
-		return ChanData{closed: Ite(c, x.closed, b.(ChanData).closed)}
+		return ChanData{closed: Ite(c, x.closed, b.(ChanData).closed), ticker: x.ticker}
 	case IterV:
 		if x.obj == b.(IterV).obj {
 			return x
